@@ -68,6 +68,8 @@ def main() -> None:
     run("memory_bw", lambda: ta.get_memory_bw_time_series(ranks))
     for r in ranks:
         run(f"gpu_kernels_with_user_annotations[{r}]", lambda r=r: ta.get_gpu_kernels_with_user_annotations(r))
+    for ugpu in (True, False):
+        run(f"user_annotation_breakdown[gpu={ugpu}]", lambda u=ugpu: ta.get_gpu_user_annotation_breakdown(use_gpu_annotation=u, visualize=False))
     run("profiler_steps", lambda: __import__("pandas").DataFrame({"s": ta.get_profiler_steps()}))
 
     def cp():  # noqa: ANN001
